@@ -194,13 +194,37 @@ def run(ctx):
             else:
                 ctx.fail("C05-R3", inner.path, "element", "element is %s" % r2[:300], inner.loc())
     # filter_by keeps exactly the items whose mask is true
-    fb = p.body("<I as mlpg_adjust::IterExt>::filter_by::{closure#0}")
-    if fb is not None:
-        atoms, table = paths.truth_table(fb)
-        if atoms is not None and len(atoms) == 1 and [("Some" in (v or "")) for k, v in sorted(table.items())] == [False, True]:
-            ctx.ok("C05-R3", "filter_by keeps an item iff its mask entry is true", fb.loc())
+    FB = "<I as mlpg_adjust::IterExt>::filter_by"
+    fbo = p.body(FB)
+    if fbo is not None:
+        fr = ExprBuilder(fbo).local(0)
+        okf = False
+        why = show(fr)[:160]
+
+        def clo_body(c):
+            return p.bodies.get(c[1][len("closure:"):]) if c[0] == "agg" and c[1].startswith("closure:") else None
+
+        def is_zip(z):
+            return z[0] == "call" and z[1].endswith("Iterator::zip") and [show(a) for a in z[2]] == [fbo.local_name(1) or "self", fbo.local_name(2) or "mask"]
+        if fr[0] == "call" and fr[1].endswith("Iterator::filter_map") and is_zip(fr[2][0]):
+            fb = clo_body(fr[2][1])
+            if fb is not None:
+                atoms, table = paths.truth_table(fb)
+                okf = atoms is not None and [show_atom for show_atom in atoms] == ["arg2.1"] and table.get((True,)) == "std::option::Option::Some{0: arg2.0}" and "None" in (table.get((False,)) or "")
+                why = "filter_map closure: %s" % (table,)
+        elif fr[0] == "call" and fr[1].endswith("Iterator::map") and fr[2][0][0] == "call" and fr[2][0][1].endswith("Iterator::filter") and is_zip(fr[2][0][2][0]):
+            # zip(self, mask).filter(|(_, keep)| **keep).map(|(item, _)| item)
+            c1, c2 = clo_body(fr[2][0][2][1]), clo_body(fr[2][1])
+            if c1 is not None and c2 is not None:
+                r1, r2_ = show(ExprBuilder(c1).local(0)), show(ExprBuilder(c2).local(0))
+                okf = r1 == "arg2.1" and r2_ == "arg2.0"
+                why = "filter keeps on `%s`, map yields `%s`" % (r1, r2_)
+        if okf:
+            ctx.ok("C05-R3", "filter_by keeps an item iff its mask entry is true (and yields the item itself)", fbo.loc())
         else:
-            ctx.fail("C05-R3", fb.path, "filter", "filter_by closure: %s" % table, fb.loc())
+            ctx.fail("C05-R3", FB, "filter", "filter_by does not keep exactly the items whose mask entry is true: %s" % why, fbo.loc())
+    else:
+        ctx.fail("C05-R3", FB, "filter", "IterExt::filter_by not found", None)
     ctx.note("not decided: that calc_wuw_and_wum + LDL + substitutions solve the normal equations (numerical linear algebra over runtime sizes); the distance computation in boundary_distances (unit-tested)")
     expl = ("Truth table of the masking decision read off the switchInt chain (all 8 assignments of the three comparison atoms), constant "
             "no-data fill from the same mask, and structural identity of the expansion/filter pipeline (same durations, same mask, same "
